@@ -85,7 +85,7 @@ func newExec(prog *ssa.Program, cfg Config, sol *Portfolio) *Exec {
 		poolState: map[*Cell][]Value{}, funcsSeen: map[*ssa.Function]bool{},
 		intrinUsed: map[string]bool{}, opaque: map[string]interface{}{},
 		replaceFn: map[string]*ssa.Function{},
-		decStr:    map[*Arr]decInfo{}, strMeta: map[*Arr]*fmtRecord{}, strPieces: map[*Arr][]*StrV{}, symCache: map[int][]string{},
+		decStr:    map[*Arr]decInfo{}, strMeta: map[*Arr]*fmtRecord{}, strPieces: map[*Arr][]*StrV{}, symCache: map[int][]string{}, bigInts: map[*Cell]*bigVal{},
 	}
 	e.resetOpaque()
 	return e
@@ -130,6 +130,7 @@ func (e *Exec) resetPath(dec []int64, no int) {
 	e.epoch = 0
 	e.panicsSeen = nil
 	e.varTime = nil
+	e.bigInts = map[*Cell]*bigVal{}
 	e.trailOn = true
 }
 
